@@ -6,7 +6,6 @@ use crate::cfg::{build, guarded, Case, Cfg};
 use crate::gen::*;
 use crate::runner::{Ctx, Stats, Tier};
 use grex::RegExpBuilder;
-use proptest::prelude::*;
 use serde_json::json;
 use std::io::Read;
 use std::process::{Command, Stdio};
